@@ -493,6 +493,70 @@ let run_cli (x : sexp) : string =
       Printf.sprintf "backend=%s invoked=%b success=%b" backend (Cli.invokes_backend s (ok = "1")) (Cli.tool_succeeds s (ok = "1") b)
   | _ -> failwith "cli"
 
+(* ---- C16/C20: reference parser ----------------------------------------------------- *)
+let tok_kind_of_string (k : string) : Tok.tkind = Tok.(match k with
+  | "ParenLeft" -> KParenLeft | "ParenRight" -> KParenRight | "BraceLeft" -> KBraceLeft
+  | "BraceRight" -> KBraceRight | "BracketLeft" -> KBracketLeft | "BracketRight" -> KBracketRight
+  | "AngleLeft" -> KAngleLeft | "AngleRight" -> KAngleRight | "Pipe" -> KPipe
+  | "Ampersand" -> KAmpersand | "Caret" -> KCaret | "Exclamation" -> KExclamation
+  | "Placeholder" -> KPlaceholder | "Plus" -> KPlus | "Minus" -> KMinus | "Times" -> KTimes
+  | "Divide" -> KDivide | "Modulo" -> KModulo | "Colon" -> KColon | "Semicolon" -> KSemicolon
+  | "Dot" -> KDot | "Comma" -> KComma | "Assignment" -> KAssignment
+  | "Equals" -> KEquals | "DoesNotEqual" -> KDoesNotEqual | "IsGE" -> KIsGE | "IsLE" -> KIsLE
+  | "ShiftLeft" -> KShiftLeft | "ShiftRight" -> KShiftRight | "Arrow" -> KArrow
+  | "PipeForType" -> KPipeForType | "Dots" -> KDots
+  | "Fn" -> KFn | "Var" -> KVar | "Const" -> KConst | "If" -> KIf | "Goto" -> KGoto
+  | "Loop" -> KLoop | "Return" -> KReturn | "Else" -> KElse | "Cast" -> KCast | "As" -> KAs
+  | "Import" -> KImport | "Pub" -> KPub | "Extern" -> KExtern | "Struct" -> KStruct
+  | "Word8" -> KWord8 | "Word16" -> KWord16 | "Word32" -> KWord32 | "Word64" -> KWord64
+  | "Word128" -> KWord128
+  | "ValueTypeKeyword" -> KType | "Identifier" -> KIdentifier | "Builtin" -> KBuiltin
+  | "NakedDecimal" -> KNakedDecimal | "BitInteger" -> KBitInteger
+  | "SuffixedInteger" -> KSuffixedInteger | "CharLiteral" -> KCharLiteral
+  | "BoolLiteral" -> KBool | "StringLiteral" -> KStringLiteral | "Error" -> KError
+  | s -> failwith ("unknown token kind " ^ s))
+let tykw_of_string (s : string) : Tok.tykw option =
+  if s = "_" then None else if s = "void" then Some Tok.TyVoid else Some (Tok.TyPrim (prim_of_string s))
+let ref_tok_of_line (line : string) : Tok.tok =
+  match String.split_on_char ' ' line with
+  | [k; v; t; xf] ->
+      let kind = tok_kind_of_string k in
+      let bytes = if kind = Tok.KStringLiteral && String.length xf >= 1 && xf.[0] = 'x' then
+          List.init ((String.length xf - 1) / 2) (fun i -> n_of_int (int_of_string ("0x" ^ String.sub xf (1 + 2 * i) 2))) else [] in
+      RefParser.mk kind (z_of_string v) (tykw_of_string t) bytes
+  | _ -> failwith ("bad token line: " ^ line)
+let unescape_field (s : string) : string =
+  let b = Buffer.create (String.length s) in
+  let n = String.length s in
+  let i = ref 0 in
+  while !i < n do
+    if s.[!i] = '\\' && !i + 1 < n then begin
+      (match s.[!i + 1] with
+       | 'n' -> Buffer.add_char b '\n'; i := !i + 2
+       | 't' -> Buffer.add_char b '\t'; i := !i + 2
+       | 'r' -> Buffer.add_char b '\r'; i := !i + 2
+       | '\\' -> Buffer.add_char b '\\'; i := !i + 2
+       | 'x' when !i + 3 < n -> Buffer.add_char b (Char.chr (int_of_string ("0x" ^ String.sub s (!i + 2) 2))); i := !i + 4
+       | c -> Buffer.add_char b '\\'; incr i)
+    end else (Buffer.add_char b s.[!i]; incr i)
+  done;
+  Buffer.contents b
+let run_refparse (payload : string) : string =
+  let text = unescape_field payload in
+  let lines = List.filter (fun l -> l <> "") (String.split_on_char '\n' text) in
+  let toks = List.map ref_tok_of_line lines in
+  let fuel = nat_of_int (20 + 10 * List.length toks) in
+  let ok = RefParser.toks_ok toks in
+  match RefParser.parse_module fuel toks with
+  | None -> Printf.sprintf "toks_ok=%b parsed=false" ok
+  | Some ds ->
+      let b = Buffer.create 4096 in
+      List.iter (fun c -> Buffer.add_char b (Char.chr (int_of_n c))) (RefParser.show_module ds);
+      (* the printer's token sequence re-parses to the same tree (C20 on the reference side) *)
+      let reparsed = match RefParser.parse_module (nat_of_int (40 + 20 * List.length toks)) (RefParser.print_module ds) with
+        | Some ds2 -> ds2 = ds | None -> false in
+      Printf.sprintf "toks_ok=%b parsed=true wf=%b roundtrip=%b\t%s" ok (RefParser.wf_module ds) reparsed (escape_bytes (List.map (fun c -> n_of_int (Char.code c)) (List.of_seq (String.to_seq (Buffer.contents b)))))
+
 let dispatch (stream : string) (x : sexp) : string =
   match stream with
   | "labels" -> run_labels x
@@ -519,7 +583,7 @@ let () =
       match String.split_on_char '\t' line with
       | [stream; id; payload] ->
           Hashtbl.reset names;
-          let res = try dispatch stream (parse_sexp payload)
+          let res = try (if stream = "refparse" then run_refparse payload else dispatch stream (parse_sexp payload))
                     with Failure m -> "MODEL-ERROR " ^ m | Not_found -> "MODEL-ERROR not_found" in
           print_string id; print_char '\t'; print_endline res
       | _ -> ()
